@@ -300,8 +300,25 @@ pub fn run(args: &Args, which: &'static str) -> i32 {
 		.filter(|s| args.opt("only").map(|o| s.name.contains(o)).unwrap_or(true))
 		.map(|s| to_runner(s, which))
 		.collect();
-	let r = run_scenarios(which, args, scns, cap);
+	let mut r = run_scenarios(which, args, scns, cap);
 	fill_model_checking_evidence(&mut ev, &r);
+	if which == "C02" && (args.opt("only").is_none() || args.opt("only") == Some("dust")) {
+		let (st, dv) = crate::checks::c02_dust::run_dust(tier.is_thorough(), args.threads);
+		ev.set("dust_cases", st.cases);
+		ev.set("dust_cases_ending_in_refusals", st.cases_refused_for_dust);
+		ev.set("dust_max_exposure_seen_msat", st.max_dust_seen_msat);
+		ev.set("dust_outcomes", json!(st.outcomes));
+		if st.cases_refused_for_dust == 0 || st.max_dust_seen_msat == 0 {
+			mc_common::cli::die("vacuity guard: the dust sweep never reached the limit");
+		}
+		if args.opt("only") == Some("dust") {
+			ev.set("states", st.cases);
+			ev.set("transitions", st.cases);
+			ev.set("traces_validated_against_impl", st.cases);
+			ev.sample(json!("dust sweep only"), 8);
+		}
+		r.violations.extend(dv);
+	}
 	if args.opt("only").is_none() {
 		let req: &[&str] = if which == "C02" {
 			&[
@@ -320,7 +337,7 @@ pub fn run(args: &Args, which: &'static str) -> i32 {
 		ev.set("witnesses", json!(crate::runner::witnesses()));
 	}
 	ev.assume("forwarding policy of the forwarder is LDK's default (base fee 1000 msat, 0 ppm, cltv_expiry_delta 72), read from the property text's 'advertised fee and CLTV delta'");
-	ev.assume("amounts are far above the dust limit; dust-sized forwards and on-chain resolution by timeout are covered only where the scenario name says so");
+	ev.assume("explored scenarios use amounts far above the dust limit; the dust clause is decided by the separate dust sweep (fixed limit on the forwarder, payment sizes around every trimming threshold, both directions, feerate raised by either funder afterwards): per channel and per commitment the untrimmed-output-less HTLCs never add up to more than the configured limit");
 	mc_common::findings::conclude(which, &r.violations, &mut ev)
 }
 
